@@ -62,7 +62,7 @@ def cfg_sql(tier):
 def cfg_iter(tier):
     """Two iteration engines only: every relation of the history can be executed directly (transfers between iteration
     engines are passed through by execute())."""
-    return Cfg(engines=(1, 2), binary=("chain",), markers=("mat", "xfer", "xfer", "mark"), max_ops=8 if tier == "quick" else 12, p_binary=0.15, iter_variants=("plain", "plain", "custom", "mapping"))
+    return Cfg(engines=(1, 2), binary=("chain",), markers=("mat", "xfer", "xfer", "mark"), max_ops=8 if tier == "quick" else 12, p_binary=0.15, iter_variants=("plain", "plain", "custom", "mapping", "lazy"))
 
 
 @st.composite
